@@ -50,6 +50,157 @@ func errCode(e error) int {
 
 var run *hlib.Run
 
+// metaChoice is a partitioner whose choice (index into the offered list) is written in the message's Metadata.
+type metaChoice struct{ cons bool }
+
+func (s *metaChoice) Partition(m *sarama.ProducerMessage, n int32) (int32, error) {
+	return int32(m.Metadata.(int)), nil
+}
+func (s *metaChoice) RequiresConsistency() bool { return s.cons }
+
+// doE2E: the routing decision observed end to end.  A real Client and AsyncProducer run against the simulated cluster:
+// the topic has np partitions, those of `before` without a leader when the client starts; then leadership changes to
+// `after` (same partition count) and the client refreshes THAT topic; then up to three messages are produced through a
+// partitioner that picks index ch of whatever list it is offered.  The answer per message is the pm line of the model
+// with all = 0..np-1 and writable = partitions that have a leader now (the simulated cluster's truth).
+func doE2E(cons bool, np int, before, after []bool, chs []int) []string {
+	sim := sarama.VerifNewSim(2, map[string]int32{"t": int32(np)})
+	defer sim.Close()
+	for p := 0; p < np; p++ {
+		if !before[p] {
+			sim.SetLeader("t", int32(p), -1)
+		}
+	}
+	cfg := sarama.NewConfig()
+	cfg.Version = sarama.V2_0_0_0
+	cfg.Producer.Return.Successes = true
+	cfg.Producer.Retry.Max = 0
+	cfg.Producer.Retry.Backoff = time.Millisecond
+	cfg.Metadata.Retry.Max = 0
+	cfg.Metadata.Retry.Backoff = time.Millisecond
+	cfg.Metadata.RefreshFrequency = 0
+	cfg.Producer.Partitioner = func(string) sarama.Partitioner { return &metaChoice{cons: cons} }
+	cl, err := sarama.NewClient(sim.Addrs(), cfg)
+	if err != nil {
+		return []string{"err-newclient " + err.Error()}
+	}
+	defer cl.Close()
+	cl.Partitions("t")
+	cl.WritablePartitions("t")
+	for p := 0; p < np; p++ {
+		l := int32(-1)
+		if after[p] {
+			l = int32(p%2 + 1)
+		}
+		sim.SetLeader("t", int32(p), l)
+	}
+	cl.RefreshMetadata("t") // leaderless partitions make this return an error after updating the cache; either way the cache is current
+	pr, err := sarama.NewAsyncProducerFromClient(cl)
+	if err != nil {
+		return []string{"err-newproducer " + err.Error()}
+	}
+	var out []string
+	for _, ch := range chs {
+		pr.Input() <- &sarama.ProducerMessage{Topic: "t", Partition: -7, Metadata: ch, Value: sarama.StringEncoder("v")}
+		var m *sarama.ProducerMessage
+		var e error
+		select {
+		case m = <-pr.Successes():
+		case pe := <-pr.Errors():
+			m, e = pe.Msg, pe.Err
+		case <-time.After(8 * time.Second):
+			out = append(out, "timeout")
+			continue
+		}
+		switch {
+		case m.Partition != -7:
+			out = append(out, fmt.Sprintf("sent %d", m.Partition))
+		case e == sarama.ErrLeaderNotAvailable:
+			out = append(out, "errLeaderNotAvailable")
+		case e == sarama.ErrInvalidPartition:
+			out = append(out, "errInvalidPartition")
+		case e != nil:
+			out = append(out, "err-other "+e.Error())
+		default:
+			out = append(out, "sent-without-partition")
+		}
+	}
+	done := make(chan struct{})
+	go func() { pr.Close(); close(done) }()
+	select {
+	case <-done:
+	case <-time.After(8 * time.Second):
+		out = append(out, "close-timeout")
+	}
+	return out
+}
+
+func emitE2E(rnd *hlib.Rand) {
+	np := rnd.Range(1, 5)
+	before, after := make([]bool, np), make([]bool, np)
+	var wr []int32
+	all := make([]int32, np)
+	for p := 0; p < np; p++ {
+		all[p] = int32(p)
+		before[p] = rnd.Chance(3, 4)
+		after[p] = before[p]
+		if rnd.Chance(1, 2) {
+			after[p] = rnd.Chance(2, 3)
+		}
+		if after[p] {
+			wr = append(wr, int32(p))
+		}
+	}
+	cons := rnd.Bool()
+	k := rnd.Range(1, 3)
+	chs := make([]int, k)
+	for i := range chs {
+		chs[i] = rnd.Range(0, np)
+		if rnd.Chance(1, 8) {
+			chs[i] = -1
+		}
+	}
+	desc := fmt.Sprintf("e2e cons=%v np=%d before=%v after=%v choices=%v", cons, np, before, after, chs)
+	var outs []string
+	run.Safe(desc, func() string { outs = doE2E(cons, np, before, after, chs); return "" })
+	b := "0"
+	if cons {
+		b = "1"
+	}
+	for i, ch := range chs {
+		o := "missing"
+		if i < len(outs) {
+			o = outs[i]
+		}
+		op := fmt.Sprintf("pm %s %s %s %d", b, hlib.Ints32(all), hlib.Ints32(wr), ch)
+		run.Emit(op, o)
+		if strings.HasPrefix(o, "sent ") {
+			offered := wr
+			if cons {
+				offered = all
+			}
+			var got int
+			fmt.Sscanf(o, "sent %d", &got)
+			if ch < 0 || ch >= len(offered) || int32(got) != offered[ch] {
+				run.IOFail("e2e-routed-outside-offered-list", desc, fmt.Sprintf("message %d: %s, offered %v", i, o, offered))
+			}
+		}
+		if strings.HasPrefix(o, "timeout") || strings.HasPrefix(o, "err-other") || o == "missing" {
+			run.IOFail("e2e-"+strings.Fields(o)[0], desc, fmt.Sprintf("message %d: %s", i, o))
+		}
+	}
+	run.Count("e2e")
+	changed := false
+	for p := range before {
+		if before[p] != after[p] {
+			changed = true
+		}
+	}
+	if changed {
+		run.Count("e2e-leadership-changed-before-refresh")
+	}
+}
+
 func doHash(refAbs bool, h uint32, n int32, how int) string {
 	fh := &fixedHash{sum: h}
 	mk := func() hash.Hash32 { return fh }
@@ -260,6 +411,10 @@ func main() {
 		}
 	}
 	for i := 0; i < n; i++ {
+		if i%250 == 125 && i < 100000 {
+			emitE2E(rnd)
+			continue
+		}
 		switch rnd.Intn(10) {
 		case 0, 1, 2, 3:
 			h := uint32(rnd.U64())
